@@ -8,8 +8,19 @@
   tables, write-back, the three watch rules: all regenerated); spec mode runs what C03 + C11 demand
   of that path: results as the direct call's seen through the client API, EVERY watch event handed
   to the helper (a failed watch included), the error class of a native Teardown RPC left open.
+
+  Direct cases (no `remote=1`), model mode: the machine whose decision points are regenerated from the current
+  wrap.go / condition.go / owned/state.go (Cosi.Model.WrapRules + WrapGen: `RHSys.stepActor = stepActorWith genRules`,
+  `Owned.forward genORules`); spec mode: the hand-written machine of Cosi.Model.Wrap (`HSys.stepActor`) and the
+  intended forwarding (`Owned.forward goodORules`) — what the helpers are meant to do, independent of the regenerated
+  facts. `C04Gen.stepActor_gen` proves the two equal while the facts have their intended values. (Remote cases run
+  the hand-written helper machine behind the regenerated gRPC path in both modes.)
+
+  `spawn … via=owned ctrl=<owner of the owned.State> fn=modify|teardown|addfin|removefin [noowner=1] [oexp=any|<phase>] [oas=<owner>]`
+  calls the helper through `owned.State`; `odestroy … ctrl= [oas=]` is `owned.State.Destroy`.
 -/
 import Cosi.Model.WrapRemote
+import Cosi.Model.WrapGen
 import Cosi.Spec.Remote
 import Cosi.Driver.Watch
 
@@ -22,6 +33,7 @@ def parseMut (s : String) : Mut :=
   | ["addFins", fs] => .addFins (fs.splitOn "+")
   | ["removeFins", fs] => .removeFins (fs.splitOn "+")
   | ["setSpec", v] => .setSpec v
+  | ["appendSpec", v] => .appendSpec v
   | ["setPhaseTD"] => .setPhaseTD
   | ["fail"] => .fail
   | _ => .noop
@@ -75,14 +87,31 @@ def respStr (req : Req) : Resp → String
   | .event e => evStr e
   | .watchOk => "watchok"
 
+/-- a helper call made through `owned.State` (pkg/state/owned/state.go) -/
+def parseOCall (a : List (String × String)) : Option Owned.OCall :=
+  let ns := arg a "ns"; let typ := arg a "typ"; let id := arg a "id"
+  match arg a "fn" with
+  | "modify" =>
+    let exp : Owned.OExp :=
+      if !hasArg a "oexp" then .dflt else if arg a "oexp" == "any" then .any else .explicit (Phase.parse (arg a "oexp"))
+    some (.modify (parseRes a) (parseMut (arg a "mut")) (arg a "noowner" == "1") exp)
+  | "teardown" => some (.teardown ns typ id (if hasArg a "oas" then some (arg a "oas") else none))
+  | "addfin" => some (.addFin ns typ id (argList a "fins"))
+  | "removefin" => some (.removeFin ns typ id (argList a "fins"))
+  | _ => none
+
 structure St where
+  /-- spec mode and every remote case: the hand-written machine -/
   h : HSys := {}
+  /-- model mode, direct cases: the machine generated from the source -/
+  g : WR.RHSys := {}
   remote : Bool := false
   spec : Bool := false
 deriving Inhabited
 
 def init (spec : Bool) (a : List (String × String)) : St :=
-  { h := { ws := Cosi.Driver.Watch.init false a }, remote := arg a "remote" == "1", spec := spec }
+  { h := { ws := Cosi.Driver.Watch.init false a }, g := { ws := Cosi.Driver.Watch.init false a },
+    remote := arg a "remote" == "1", spec := spec }
 
 /-- what the properties demand of the remote path, independent of the regenerated gRPC facts -/
 def specVia : Via :=
@@ -92,38 +121,79 @@ def specVia : Via :=
       | .err _ => .err "*"
       | r => r }
 
+def stepOutStr : StepOut → String
+  | .noActor => "noactor"
+  | .finished _ => "finished"
+  | .blocked => "blocked"
+  | .did req resp fin =>
+    let base := s!"did {reqName req} {respStr req resp}"
+    match fin with
+    | some r => base ++ " -> done " ++ retStr r
+    | none => base
+
+/-- the helper call a `spawn` line names: directly, or through owned.State with the forwarding rules `orules` -/
+def spawnCall (orules : Owned.ORules) (a : List (String × String)) : Option HCall :=
+  if arg a "via" == "owned" then (parseOCall a).map (Owned.forward orules (arg a "ctrl")) else parseCall a
+
+/-- an environment operation line (`odestroy` = owned.State.Destroy) -/
+def envOpOf (orules : Owned.ORules) (op : String) (a : List (String × String)) : Option Op :=
+  if op == "odestroy" then
+    some (Owned.forwardDestroy orules (arg a "ctrl") (arg a "ns") (arg a "typ") (arg a "id")
+      (if hasArg a "oas" then some (arg a "oas") else none))
+  else parseOp op a
+
+def mutOutStr (a : List (String × String)) : Option Out → String
+  | none => "mutfail"
+  | some out => outStr out (arg a "ns") (arg a "typ")
+
+/-- the hand-written machine (spec mode; remote cases in both modes) -/
 def stepHSys (remote spec : Bool) (s : HSys) (op : String) (a : List (String × String)) : HSys × String :=
+  let orules := if spec then Owned.goodORules else Owned.genORules
   match op with
   | "spawn" =>
-    match parseCall a with
+    match spawnCall orules a with
     | some c => (s.spawn (argNat a "a") c, "ok")
     | none => (s, "bad-op")
   | "step" =>
     let (s', o) := if remote then s.stepActorVia (if spec then specVia else genVia) (argNat a "a") (argNat a "t")
                    else s.stepActor (argNat a "a") (argNat a "t")
-    (s', match o with
-      | .noActor => "noactor"
-      | .finished _ => "finished"
-      | .blocked => "blocked"
-      | .did req resp fin =>
-        let base := s!"did {reqName req} {respStr req resp}"
-        match fin with
-        | some r => base ++ " -> done " ++ retStr r
-        | none => base)
+    (s', stepOutStr o)
   | "envmod" =>
     let (s', o) := s.envMod (argNat a "t") (arg a "ns") (arg a "typ") (arg a "id") (parseMut (arg a "mut"))
-    (s', match o with
-      | none => "mutfail"
-      | some out => outStr out (arg a "ns") (arg a "typ"))
+    (s', mutOutStr a o)
   | _ =>
-    match parseOp op a with
+    match envOpOf orules op a with
+    | none => (s, "bad-op")
+    | some o =>
+      let (s', out) := s.envOp (argNat a "t") o
+      (s', outStr out (arg a "ns") (arg a "typ"))
+
+/-- the machine generated from the current source (model mode, direct cases) -/
+def stepRHSys (s : WR.RHSys) (op : String) (a : List (String × String)) : WR.RHSys × String :=
+  match op with
+  | "spawn" =>
+    match spawnCall Owned.genORules a with
+    | some c => (s.spawn (argNat a "a") c, "ok")
+    | none => (s, "bad-op")
+  | "step" =>
+    let (s', o) := s.stepActor (argNat a "a") (argNat a "t")
+    (s', stepOutStr o)
+  | "envmod" =>
+    let (s', o) := s.envMod (argNat a "t") (arg a "ns") (arg a "typ") (arg a "id") (parseMut (arg a "mut"))
+    (s', mutOutStr a o)
+  | _ =>
+    match envOpOf Owned.genORules op a with
     | none => (s, "bad-op")
     | some o =>
       let (s', out) := s.envOp (argNat a "t") o
       (s', outStr out (arg a "ns") (arg a "typ"))
 
 def stepLine (s : St) (op : String) (a : List (String × String)) : St × String :=
-  let (h', o) := stepHSys s.remote s.spec s.h op a
-  ({ s with h := h' }, o)
+  if !s.spec && !s.remote then
+    let (g', o) := stepRHSys s.g op a
+    ({ s with g := g' }, o)
+  else
+    let (h', o) := stepHSys s.remote s.spec s.h op a
+    ({ s with h := h' }, o)
 
 end Cosi.Driver.Helpers
